@@ -1,0 +1,130 @@
+//go:build verif
+
+package risc
+
+// Verification hooks (build tag "verif"). With the tag off, verif_off.go
+// provides empty methods and a zero-size state; nothing here is reachable.
+
+const (
+	VerifKindExec = iota + 1
+	VerifKindDecode
+	VerifKindFlush
+	VerifKindRegWB
+	VerifKindStore
+	VerifKindDispatch
+	VerifKindFill
+	VerifKindEvict
+	VerifKindWriteBack
+	VerifKindReturn
+)
+
+// VerifRec is one recorded event.
+type VerifRec struct {
+	Kind    int
+	Seq, Pc int32
+	A, B    int32
+	Exe     Execution
+	Mem     []int8
+	Tick    int64
+}
+
+// VerifBudgetExceeded is the panic value raised by VerifTick when the logical
+// tick budget is exhausted.
+type VerifBudgetExceeded struct {
+	Site  int
+	Ticks int64
+}
+
+const VerifSites = 16
+
+type verifState struct {
+	Budget  int64
+	Ticks   int64
+	Sites   [VerifSites]int64
+	OnTick  func(site, cycle int)
+	LogOn   bool
+	Log     []VerifRec
+	MaxLog  int
+	Dropped int64
+}
+
+type VerifState = verifState
+
+func (ctx *Context) Verif() *VerifState { return &ctx.verif }
+
+// VerifTick is called once per iteration of every run loop.
+func (ctx *Context) VerifTick(site, cycle int) {
+	v := &ctx.verif
+	v.Ticks++
+	if site >= 0 && site < VerifSites {
+		v.Sites[site]++
+	}
+	if v.Budget > 0 && v.Ticks > v.Budget {
+		panic(VerifBudgetExceeded{Site: site, Ticks: v.Ticks})
+	}
+	if v.OnTick != nil {
+		v.OnTick(site, cycle)
+	}
+}
+
+func (v *verifState) add(r VerifRec) {
+	if !v.LogOn {
+		return
+	}
+	if v.MaxLog > 0 && len(v.Log) >= v.MaxLog {
+		v.Dropped++
+		return
+	}
+	r.Tick = v.Ticks
+	v.Log = append(v.Log, r)
+}
+
+// VerifExec records the result of one InstructionRunner.Run.
+func (ctx *Context) VerifExec(seq, pc int32, exe Execution, mem []int8) {
+	v := &ctx.verif
+	if !v.LogOn {
+		return
+	}
+	if exe.MemoryChanges != nil {
+		m := make(map[int32]int8, len(exe.MemoryChanges))
+		for k, x := range exe.MemoryChanges {
+			m[k] = x
+		}
+		exe.MemoryChanges = m
+	}
+	var cp []int8
+	if len(mem) != 0 {
+		cp = append(cp, mem...)
+	}
+	v.add(VerifRec{Kind: VerifKindExec, Seq: seq, Pc: pc, Exe: exe, Mem: cp})
+}
+
+// VerifEvent records a scalar event.
+func (ctx *Context) VerifEvent(kind int, seq, a, b int32) {
+	v := &ctx.verif
+	if !v.LogOn {
+		return
+	}
+	v.add(VerifRec{Kind: kind, Seq: seq, A: a, B: b})
+}
+
+// VerifStore records a store becoming visible (cache or memory).
+func (ctx *Context) VerifStore(seq int32, exe Execution) {
+	v := &ctx.verif
+	if !v.LogOn {
+		return
+	}
+	lo, n := int32(0), int32(0)
+	first := true
+	for a := range exe.MemoryChanges {
+		if first || a < lo {
+			lo = a
+			first = false
+		}
+		n++
+	}
+	v.add(VerifRec{Kind: VerifKindStore, Seq: seq, A: lo, B: n})
+}
+
+// VerifSequenceEpoch exposes the fetch epoch.
+func (ctx *Context) VerifSequenceEpoch() int32 { return ctx.sequenceID }
